@@ -135,13 +135,20 @@ def run(ctx):
                 'comments, paragraph breaks, inline and display math) under 4 whitespace policies x 16 option sets; '
                 'latex_to_text must return exactly the same text; compositionality is checked on %d x %d block pairs. '
                 'Non-trivial: the string contains markup.' % (len(ATOMS), len(BLOCKS), len(BLOCKS)))
-    text = mc_text(atoms, K)
-    jobs = [dict(payload=dict(rotate=quick), main='MC_L2TRun', mc=text, cfg=cfg_text(K, sh), tlc_kw=dict(timeout=6000, xmx='3g'))
-            for sh in range(0, len(atoms) + 1)]
-    m = common.run_shards(ctx, ('harness.c03', 'TextConsumer'), jobs, what='L2TRun strings <= %d' % K)
-    ctx.add_merged(m)
-    ctx.log('strings: %d parseable strings, %d renderings compared, %d identical strings' % (
-        m['n'], m['counters'].get('renders', 0), m['counters'].get('same', 0)))
+    # quick: all atoms, K = 3, every second option set (alternating); thorough: all atoms, K = 3, every option set, and a core
+    # alphabet at K = 4 (all atoms at K = 4 would be 3e6 strings x 96 renderings)
+    CORE = ['a', ' ', '\n', '{', '}', '$', '%', '~', '\\[', '\\]', '\\alpha', '\\textbf', '\\frac', "\\'", '\\item',
+            '\\begin{itemize}', '\\end{itemize}', '\\alpha ', '%c\n']
+    plans = [(ATOMS, 3, True)] if quick else [(ATOMS, 3, False), (CORE, 4, True)]
+    text = mc_text(ATOMS, 3)
+    for patoms, pK, rot in plans:
+        ptext = mc_text(patoms, pK)
+        jobs = [dict(payload=dict(rotate=rot), main='MC_L2TRun', mc=ptext, cfg=cfg_text(pK, sh), tlc_kw=dict(timeout=6000, xmx='3g'))
+                for sh in range(0, len(patoms) + 1)]
+        m = common.run_shards(ctx, ('harness.c03', 'TextConsumer'), jobs, what='L2TRun %d atoms, strings <= %d' % (len(patoms), pK))
+        ctx.add_merged(m)
+        ctx.log('strings (%d atoms, <= %d): %d parseable strings, %d renderings compared, %d identical strings' % (
+            len(patoms), pK, m['n'], m['counters'].get('renders', 0), m['counters'].get('same', 0)))
     # compositionality: TLC invariant on the model + the same equalities on the implementation
     r = common.run_tlc('MC_L2TRun', cfg_text(1, -1).replace('INVARIANT Emit\n', '').replace('Shard = -1', 'Shard <- BlockPairsShard'), mc_text=text, workers=common.NPROC,
                        timeout=3000, xmx='8g')
